@@ -312,16 +312,24 @@ class InPlace(COp):
     sanctioned = True
 
     def gen(self, tape, info):
-        return {"form": ["iadd", "imul", "out_multiply", "isub_arr", "out_tuple"][
-            tape.draw(5, "inp.form")], "seed": tape.draw(64, "inp.seed")}
+        return {"form": ["iadd", "imul", "out_multiply", "isub_arr", "out_tuple", "out_third",
+                         "out_third_where", "isub_signal"][tape.draw(8, "inp.form")],
+                "seed": tape.draw(64, "inp.seed")}
 
     def prepare(self, pb, z, desc):
         rng = np.random.default_rng(desc["seed"])
         if desc["form"] == "isub_arr":
             w = rng.standard_normal(z.shape[1:]).astype(np.float32)
             return {"w": w}
-        if desc["form"] == "iadd":
+        if desc["form"] in ("iadd", "isub_signal"):
             return {"w": type(z).like(z, np.ones(z.shape, z.dtype))}
+        if desc["form"] in ("out_third", "out_third_where"):
+            # np.add(z, w, out=c): c is the ONLY sanctioned target; z and w are plain inputs
+            a = {"w": type(z).like(z, rng.standard_normal(z.shape).astype(z.dtype)),
+                 "c": type(z).like(z, np.zeros(z.shape, z.dtype))}
+            if desc["form"] == "out_third_where":
+                a["mask"] = rng.integers(0, 2, size=z.shape[1:]).astype(bool)
+            return a
         return {}
 
     def call(self, pb, z, args, desc):
@@ -336,6 +344,12 @@ class InPlace(COp):
             z -= args["w"]
         elif f == "out_tuple":
             np.negative(z, out=(z,))
+        elif f == "isub_signal":
+            z -= args["w"]
+        elif f == "out_third":
+            np.add(z, args["w"], out=args["c"])
+        elif f == "out_third_where":
+            np.multiply(z, args["w"], out=args["c"], where=args["mask"])
         return None
 
 
@@ -672,6 +686,8 @@ def _run(ctx):
             ctx.probe("input_is_view_of_heap_object")
 
         sanc = target if getattr(op, "sanctioned", False) else None
+        if sanc is not None and "c" in args:
+            sanc = next(a for a in arg_h if a.obj is args["c"])     # out= names c, not z
         if opname == "compute_sim":
             args["ctx"] = ctx
 
